@@ -66,6 +66,21 @@ CHECKS = {
          "components; TLC checks isolation (an action changes class-level state of at most one class), default tag of the instance's own class, explicit tag wins, "
          "class/instance separation (negative control: Agent's default for everybody = repaired defect D6). Graph walks and random histories on fresh subclasses "
          "created with type(); after every call TLC compares comps/len/contains/Cls[T]/tag of all five classes and tag/comps of every instance."),
+ "C14": ("Batch", "6 C14", "Batch.tla: the declaration machine of ParameterList and two definitions of the product (right recursion with the first parameter slowest = the "
+         "statement; left fold = itertools.product as the code calls it); TLC checks them equal, the size formula, every name in every combination and "
+         "lexicographic order for every declaration history over 3 names x 15 value shapes (scalars, strings, empty/singleton/repeated lists, tuple, range, "
+         "numpy array). Graph walks and random histories on real ParameterList objects (constructor and incremental API, non-string and duplicate names, "
+         "returned dictionaries modified between builds); TLC compares every build with Product(decl)."),
+ "C15": ("Batch", "6 C15", "Batch.tla models the pool: tasks handed out in order, workers finishing in any order, results collected in completion order, a failing task "
+         "raising; TLC enumerates every schedule (3 workers x 4 tasks, failures at positions 2 and 4, serial) and checks exactly-once, no duplicates, serial "
+         "order, error surfaces (negative control: dropped failure). Real batch_run calls on a self-identifying fixture model (records carry the parameters "
+         "and the timesteps seen; empty record lists; two collectors) over random grids, repetitions, limits, process counts 1..cores with perturbed "
+         "durations and a failing execution at every position; TLC compares the returned list (as sequence for one process, as bag otherwise) with "
+         "RunRecords of every task, or demands the error."),
+ "C16": ("Batch", "6 C16", "Batch.tla: aggregates as exact rationals, BestIdx = first optimum, and the code's selection loop; TLC checks loop = BestIdx for every score table "
+         "3x2 over {-2,0,1,2} with sentinel 1 x 8 modes (32k cases; negative control: sentinel-initialised loop = repaired defect D8). Real grid_search calls "
+         "with table-driven score functions scaled by 1, 1/4 and 2**61 (beyond sys.maxsize), ties, every optimum position, processes 1,2,4(..cores); TLC checks "
+         "parameters, individual scores, the aggregate (cross-multiplied rational) and the best index of every call."),
 }
 
 TECH = "TLA+ specification model-checked with TLC; implementation traces (spec->code graph walks and code->spec drivers) validated by TLC against the trace specification"
